@@ -10,12 +10,12 @@ LEVEL = "exploration"
 RULE = ("the C15 configuration space (model tags x rated power x all subsets of refused blocks x battery present/absent, DT and "
         "ES likewise) is run end to end (read_device_info + 3 x read_runtime_data against a simulated inverter that answers with "
         "EXACT-length responses); a hook on ProtocolResponse.read records (position, requested, returned) of every read during "
-        "decoding (every other Modbus/TCP run against firmware that sends a wrong MBAP length field; every fifth configuration with a failing re-run of read_device_info before one more poll, every tenth with polls in which one block read is refused with a non-address exception code): no read may return fewer bytes than requested (= decoding past the end of the fetched window); every short "
+        "decoding (every other Modbus/TCP run against firmware that sends a wrong MBAP length field; every fifth configuration with a failing re-run of read_device_info before one more poll, every tenth with polls in which one block read is refused with a non-address exception code, every tenth with read_sensor() of every listed id and with overlapping polls on a fresh object): no read may return fewer bytes than requested (= decoding past the end of the fetched window); every short "
         "read is attributed to the sensor that caused it; distinct = distinct configurations; reads observed are counted")
 ASSUMPTIONS = ["the simulated inverter answers every read with exactly 2 x count payload bytes",
                "values decoded from a refused block's predecessor response would also show as foreign reads in C12/C15; this "
                "check decides only 'no reported value is fabricated from missing bytes'"]
-MUST = ["poll_with_transient_rejection", "poll_after_failed_device_info", "tcp_wrong_mbap_length", "configs_run", "reads_observed", "block_running", "block_battery", "block_battery2", "block_meter_basic",
+MUST = ["single_reads_observed", "overlapping_polls", "poll_with_transient_rejection", "poll_after_failed_device_info", "tcp_wrong_mbap_length", "configs_run", "reads_observed", "block_running", "block_battery", "block_battery2", "block_meter_basic",
         "block_meter_ext", "block_meter_ext2", "block_mppt", "block_dt_running", "block_dt_meter", "block_es_runtime"]
 EXHAUSTIVE = {"quick": False, "thorough": True}
 
@@ -64,8 +64,43 @@ def check_config(cfg, part, rl, port=8899, mbap=None, rerun_info=False):
             part.count("poll_with_transient_rejection")
         await failing_device_info_then_poll(inv, sim, loop, res_)
 
+    async def single_reads_and_overlapping_polls(inv, sim, loop, res_):
+        """(a) read_sensor() of every listed id: whatever it fetches, it decodes only from that; (b) a fresh object of the same model whose
+        first two polls overlap in time (the second starts while the first waits for a refusal that narrows the sensor set)"""
+        import asyncio
+        for sn_ in inv.sensors():
+            rl.start()
+            try:
+                await inv.read_sensor(sn_.id_)
+            except (g.InverterError, ValueError):
+                pass
+            for entry in rl.stop():
+                if entry[3] < entry[2]:
+                    res_["short_reads"].append((30,) + entry)
+            part.count("single_reads_observed")
+        if fam == "ES":
+            return
+        for gap in (0.05, 0.15, 0.3):
+            inv2 = type(inv)("inv0", port, 0, 1, 0)
+            await inv2.read_device_info()
+            sim.delay = 0.2
+
+            async def poll(after):
+                await asyncio.sleep(after)
+                try:
+                    await inv2.read_runtime_data()
+                except g.InverterError:
+                    pass
+            rl.start()
+            await asyncio.gather(poll(0.0), poll(gap), poll(2 * gap))
+            for entry in rl.stop():
+                if entry[3] < entry[2]:
+                    res_["short_reads"].append((40,) + entry)
+            sim.delay = 0.0
+            part.count("overlapping_polls")
+
     res = configs.run_config(cfg, ncalls=3, port=port, readlog=rl, mbap_len_bug=mbap,
-                             extra=(transient_rejections if rerun_info == "transient" else failing_device_info_then_poll) if rerun_info else None)
+                             extra=({"transient": transient_rejections, "overlap": single_reads_and_overlapping_polls}.get(rerun_info, failing_device_info_then_poll)) if rerun_info else None)
     run = res["run"]
     part.evaluations += 1
     part.count("configs_run")
@@ -93,7 +128,8 @@ def check_config(cfg, part, rl, port=8899, mbap=None, rerun_info=False):
         first, count = getattr(cmd, "first_address", None), getattr(cmd, "value", None)
         culprits = []
         for sn in inv.sensors() + tuple(getattr(inv, "_sensors_mppt", ())) + tuple(getattr(inv, "_sensors_battery", ())) + \
-                tuple(getattr(inv, "_sensors_battery2", ())):
+                tuple(getattr(inv, "_sensors_battery2", ())) + tuple(getattr(inv, "_ET__all_sensors_meter", ())) + \
+                tuple(getattr(inv, "_ET__all_sensors", ())):
             try:
                 span = rs.own_span(sn)
             except rs.NoRef:
@@ -144,7 +180,7 @@ def run_shard(spec):
     for i, cfg in enumerate(allc):
         if i % spec["shards"] != spec["shard"]:
             continue
-        check_config(cfg, part, rl, 8899, rerun_info=("transient" if i % 10 == 5 else i % 5 == 0))
+        check_config(cfg, part, rl, 8899, rerun_info=("transient" if i % 10 == 5 else "overlap" if i % 10 == 3 else i % 5 == 0))
         if cfg["family"] != "ES" and (tier != "quick" or i % 7 == 0):
             # Modbus/TCP; every other run against firmware that sends a wrong MBAP length field (a known GoodWe quirk)
             check_config(cfg, part, rl, 502, mbap=(None, "request", "bytecount")[i % 3])
